@@ -16,3 +16,19 @@ for p in sorted((Path(__file__).parent / "props").glob("c*.py")):
             seen.add(g)
             core.run_generators([g], b)
 print("generated:", sorted(b.gen_files), "problems:", b.problems)
+
+# phase 2 (needs the compiled driver): build it, then run every property's GENERATORS2
+import subprocess  # noqa: E402
+
+r = subprocess.run(["lake", "build", "driver"], cwd=core.LEAN, capture_output=True, text=True)
+if r.returncode != 0:
+    print(r.stdout[-2000:], r.stderr[-2000:])
+    sys.exit(1)
+seen2 = set()
+for p in sorted((Path(__file__).parent / "props").glob("c*.py")):
+    mod = importlib.import_module(f"props.{p.stem}")
+    for g in getattr(mod, "GENERATORS2", ()):
+        if g not in seen2:
+            seen2.add(g)
+            core.run_generators([g], b)
+print("generated (phase 2):", sorted(k for k in b.gen_files if "FFKeys" in k), "problems:", b.problems)
